@@ -66,60 +66,145 @@ def inRun (hist : List Op) : Bool :=
   | some .start => true
   | _ => false
 
-def isStatus : SinkEv → Bool
-  | .status _ => true
-  | _ => false
+/-! ### reading the observed history
+`H` = the operations that took effect so far, in order: every `add_rule` call — by the driver, or by a sink from inside
+one of its methods — and every `startTestRun` / `stopTestRun` of the router that returned normally.  Which rule applies,
+who is registered and whether a run is in progress are read off `H` (`regs`, `flagged`, `inRun`). -/
 
-/-- status deliveries expected of operation `o` after history `hist` -/
-def expectStatus (hasFallback : Bool) (hist : List Op) : Op → List (Nat × SinkEv)
-  | .status e => match destination hasFallback (regs hist) e with
-    | some (sink, e') => [(sink, .status e')]
-    | none => []
-  | _ => []
+/-- the sink of a registration made with `do_start_stop_run` -/
+def flaggedSink (o : Op) : Option Nat :=
+  match regOf o with
+  | some (.pfx sink _ _ true) => some sink
+  | some (.tid sink _ true) => some sink
+  | _ => none
 
-/-- start/stop deliveries expected of operation `o` after history `hist` -/
-def expectCtl (hasFallback fbFlag : Bool) (hist : List Op) (o : Op) : List (Nat × SinkEv) :=
+/-- an `add_rule` call enters the history if its policy method succeeded -/
+def effAdd (o : Op) : List Op :=
+  match regOf o with
+  | some _ => [o]
+  | none => []
+
+/-- what the router itself must call during an operation: for `startTestRun` / `stopTestRun` one call per sink
+registered for them — including sinks registered while the dispatch is under way —, otherwise a fixed list -/
+inductive Mode where
+  | ctl (ev : SinkEv)
+  | fixed (ds : List (Nat × SinkEv))
+
+def nextTop (hb ff : Bool) (m : Mode) (h : List Op) (i : Nat) : Option (Nat × SinkEv) :=
+  match m with
+  | .ctl ev => ((flagged hb ff (regs h))[i]?).map (·, ev)
+  | .fixed ds => ds[i]?
+
+def allDone (hb ff : Bool) (m : Mode) (h : List Op) (i : Nat) : Bool :=
+  match m with
+  | .ctl _ => i == (flagged hb ff (regs h)).length
+  | .fixed ds => i == ds.length
+
+/-- walk through what was observed during one operation.  `running` = a run was in progress when the operation
+began (it stays so until the operation returns); `i` = calls made by the router so far; `h` = history so far;
+`pend` = a sink just registered re-entrantly with the flag while running: its `startTestRun` must come next;
+`st` = the router has called a sink already (only then can a sink add rules or raise).
+Result: the exception that ended the operation (if any) and the history; `none` = not what the property allows. -/
+def walk (hb ff running : Bool) (m : Mode) : Nat → List Op → Option Nat → Bool → List Item → Option (Option String × List Op)
+  | i, h, some y, st, .del x .start true :: r => if x = y then walk hb ff running m i h none st r else none
+  | _, _, some _, _, _ => none
+  | i, h, none, _, [] => if allDone hb ff m h i then some (none, h) else none
+  | _, h, none, st, [.exc x] => if st then some (some x, h) else none
+  | i, h, none, st, .radd o :: r =>
+    if st then walk hb ff running m i (h ++ effAdd o) (if running then flaggedSink o else none) st r else none
+  | i, h, none, _, .del x ev false :: r =>
+    if nextTop hb ff m h i = some (x, ev) then walk hb ff running m (i + 1) h none true r else none
+  | _, _, none, _, _ => none
+
+def closes (res : Res) (w : Option (Option String × List Op)) (completed : List Op) : Option (List Op) :=
+  match w with
+  | some (none, h) => if res == .ok then some (h ++ completed) else none
+  | some (some x, h) => if res == .raised x then some h else none
+  | none => none
+
+/-- an `add_rule` of the driver whose policy method succeeds: the new sink is started at once iff it was registered
+with the flag and a run is in progress -/
+def addOk (hb ff : Bool) (H : List Op) (o : Op) (seg : List Item) (res : Res) : Option (List Op) :=
+  closes res (walk hb ff (inRun H)
+    (.fixed (match flaggedSink o with | some y => if inRun H then [(y, .start)] else [] | none => []))
+    0 (H ++ [o]) none false seg) []
+
+/-- one operation of the driver against what was observed during it and what it returned; result: the history
+afterwards, `none` = the property is violated -/
+def opOk (hb ff : Bool) (H : List Op) (o : Op) (seg : List Item) (res : Res) : Option (List Op) :=
   match o with
-  | .start => (flagged hasFallback fbFlag (regs hist)).map (·, .start)
-  | .stop => (flagged hasFallback fbFlag (regs hist)).map (·, .stop)
-  | _ =>
+  | .start => closes res (walk hb ff (inRun H) (.ctl .start) 0 H none false seg) [.start]
+  | .stop => closes res (walk hb ff (inRun H) (.ctl .stop) 0 H none false seg) [.stop]
+  | .status e =>
+    match destination hb (regs H) e with
+    | none => if seg.isEmpty && res == .raised "AttributeError" then some H else none
+    | some (sink, e') => closes res (walk hb ff (inRun H) (.fixed [(sink, .status e')]) 0 H none false seg) []
+  | .roundTrip codes e =>
+    if seg.isEmpty && (codes.any (fun c => c.contains '/' || c.isEmpty) || e.route == some [] || res == .arrived e)
+    then some H else none
+  | o =>
     match regOf o with
-    | some (.pfx sink _ _ true) => if inRun hist then [(sink, .start)] else []
-    | some (.tid sink _ true) => if inRun hist then [(sink, .start)] else []
-    | _ => []
+    | none => if seg.isEmpty && res != .ok then some H else none
+    | some _ => addOk hb ff H o seg res
 
-def overHistory {α : Type} (f : List Op → Op → List α) : List Op → List Op → List α
-  | _, [] => []
-  | hist, o :: os => f hist o ++ overHistory f (hist ++ [o]) os
+/-- the history after all operations; `none` = the property is violated somewhere -/
+def finalHist (hb ff : Bool) : List Op → List Op → List (List Item) → List Res → Option (List Op)
+  | H, [], [], [] => some H
+  | H, o :: os, seg :: segs, r :: rs =>
+    match opOk hb ff H o seg r with
+    | some H' => finalHist hb ff H' os segs rs
+    | none => none
+  | _, _, _, _ => none
 
-/-- every status goes to exactly one sink — the one `destination` names — and to no other; an event without
-destination is delivered nowhere -/
-def cOneSink (i : Input) (t : Trace) : Bool :=
-  t.deliveries.filter (fun d => isStatus d.2) == overHistory (expectStatus i.hasFallback) [] i.ops
-/-- startTestRun / stopTestRun reach exactly the registered sinks, once per call; a rule added mid-run with the
-flag is started at once, one without the flag never -/
-def cStartStop (i : Input) (t : Trace) : Bool :=
-  t.deliveries.filter (fun d => !isStatus d.2) == overHistory (expectCtl i.hasFallback i.fbFlag) [] i.ops
+def historyOk (hb ff : Bool) (H : List Op) (os : List Op) (segs : List (List Item)) (rs : List Res) : Bool :=
+  (finalHist hb ff H os segs rs).isSome
 
-def expectRes (hasFallback : Bool) (hist : List Op) : Op → Res → Bool
-  | .status e, r => r == (if (destination hasFallback (regs hist) e).isSome then .ok else .raised "AttributeError")
-  | .roundTrip codes e, r => codes.any (fun c => c.contains '/' || c.isEmpty) || e.route == some [] || r == .arrived e
-  | .start, r => r == .ok
-  | .stop, r => r == .ok
-  | _, _ => true
+/-- **the property over whole histories**: every status goes to the one sink `destination` names (rules registered
+so far, by whatever path), unchanged but for a consumed route segment; `startTestRun` / `stopTestRun` call each sink
+registered for them — before or during the dispatch — exactly once, in registration order, and nothing else; a rule
+added with the flag while a run is in progress is started at once, otherwise not; an exception raised by a sink ends
+the operation there and reaches the driver; a push/pop round trip returns the event unchanged -/
+def cHistory (i : Input) (t : Trace) : Bool := historyOk i.hasFallback i.fbFlag [] i.ops t.segments t.results
 
-def resultsOk (hasFallback : Bool) : List Op → List Op → List Res → Bool
-  | _, [], [] => true
-  | hist, o :: os, r :: rs => expectRes hasFallback hist o r && resultsOk hasFallback (hist ++ [o]) os rs
-  | _, _, _ => false
+/-! ### per sink: starts and stops alternate -/
+def ctlOf (x : Nat) : List Item → List Bool
+  | [] => []
+  | .del y .start _ :: r => if y = x then true :: ctlOf x r else ctlOf x r
+  | .del y .stop _ :: r => if y = x then false :: ctlOf x r else ctlOf x r
+  | _ :: r => ctlOf x r
 
-/-- a status call raises exactly when there is no destination; an event pushed through `StreamToQueue(code)`s and
-popped by consuming rules for those codes arrives unchanged, with its original route code (`None` or any
-non-empty string; the empty string is not a route code: it has no segment, and comes back as `None`) -/
-def cResults (i : Input) (t : Trace) : Bool := resultsOk i.hasFallback [] i.ops t.results
+/-- `true` = start; alternating, beginning with a start -/
+def alternates : Bool → List Bool → Bool
+  | _, [] => true
+  | expectStart, b :: r => b == expectStart && alternates (!expectStart) r
+
+def hasExc (seg : List Item) : Bool := seg.any fun | .exc _ => true | _ => false
+
+/-- the driver starts a run only when none is in progress and stops only a run in progress -/
+def runsWellFormed : Bool → List Op → Bool
+  | _, [] => true
+  | running, .start :: os => !running && runsWellFormed true os
+  | running, .stop :: os => running && runsWellFormed false os
+  | running, _ :: os => runsWellFormed running os
+
+def sinksOf (t : Trace) : List Nat :=
+  (t.segments.flatten.filterMap fun | .del x _ _ => some x | _ => none).eraseDups
+
+/-- no sink raises, runs do not nest (the driver starts a run only when none is in progress and stops only a run in
+progress), and no sink is registered twice for start/stop (by the driver or re-entrantly; the fallback counts) -/
+def clean (i : Input) (t : Trace) : Bool :=
+  !(t.segments.any hasExc) && runsWellFormed false i.ops &&
+    match finalHist i.hasFallback i.fbFlag [] i.ops t.segments t.results with
+    | some Hf => decide (flagged i.hasFallback i.fbFlag (regs Hf)).Nodup
+    | none => false
+
+/-- in such a history every sink sees `startTestRun` and `stopTestRun` strictly alternating, beginning with a start:
+at most one start per run, never a stop without a start -/
+def cAlternate (i : Input) (t : Trace) : Bool :=
+  !clean i t || (sinksOf t).all fun x => alternates true (ctlOf x t.segments.flatten)
 
 def clauses : List (String × (Input → Trace → Bool)) :=
-  [("one-sink", cOneSink), ("start-stop", cStartStop), ("results-inverse", cResults)]
+  [("history", cHistory), ("alternate", cAlternate)]
 
 def holds (i : Input) (t : Trace) : Bool := clauses.all fun c => c.2 i t
 
